@@ -19,7 +19,7 @@ Definition dg_max_length (mds low : N) : N := if (dg_maxsize <=? low) then 0 els
 Definition dg_sniff_raw (b0 : N) : bool := negb ((b0 mod 16) =? 8).
 (* max(required - len(chunk), 0) *)
 Definition dg_remaining (required n : N) : N := (N.max (required - n) 0).
-(* all 5 PAYLOAD_NEEDS_INPUT returns of HttpPayloadParser.feed_data clear _paused first *)
+(* all 6 PAYLOAD_NEEDS_INPUT returns of HttpPayloadParser.feed_data clear _paused first *)
 Definition dg_needs_input_clears_pause : bool := true.
 Definition dg_wait_checks_exception : bool := true.
 Definition dg_close_keeps_pending_parser : bool := true.
